@@ -2,7 +2,7 @@
 from fractions import Fraction
 
 from harness import coqio as cq
-from harness.common import CONFIGS, F, enc, fl, score_list
+from harness.common import CONFIGS, F, enc, fl, score_list, pick_dtype
 
 METRICS = ["tpr", "fnr", "tnr", "fpr", "topr", "tonr"]
 ALIASES = {"tpr": "tar", "fnr": "frr", "tnr": "trr", "fpr": "far", "topr": "acceptance_rate", "tonr": "rejection_rate"}
@@ -38,7 +38,7 @@ def gen_scores(rng, exact, metric, style=None):
     else:
         npos = rng.choice([1, 2, 3, 5, 6, 7, 9])
         nneg = rng.choice([1, 2, 3, 4, 5, 7, 10])
-        style = style or rng.choice(["ties", "dyadic", "ints", "distinct", "float"])
+        style = style or rng.choice(["ties", "dyadic", "ints", "distinct", "float", "wide-int"])
         ep = rng.choice([0, 0, 1, 2, 5, 30])
         en = rng.choice([0, 0, 1, 3, 7])
     pos = score_list(rng, npos, style)
@@ -72,6 +72,9 @@ def thr_case(rng, exact, metric=None, method=None):
             "metric": metric, "method": method or rng.choice(["linear", "linear", "lower", "higher"]), "exact": exact}
     rel, _ = relevant(case)
     case["targets"] = [enc(t) for t in gen_targets(rng, len(rel), exact)]
+    case["dtype"] = pick_dtype(rng, pos + neg)
+    # history: other threshold queries made on the same object before the one under test
+    case["warmup"] = rng.sample(METRICS, rng.choice([0, 0, 1, 2]))
     return case
 
 
@@ -79,8 +82,9 @@ def make_scores(case):
     import numpy as np
     from score_analysis import Scores
 
-    pos = np.array([fl(x) for x in case["pos"]], dtype=float)
-    neg = np.array([fl(x) for x in case["neg"]], dtype=float)
+    dt = np.dtype(case.get("dtype", "float64"))     # the values are exactly representable in the chosen dtype
+    pos = np.array([fl(x) for x in case["pos"]], dtype=float).astype(dt)
+    neg = np.array([fl(x) for x in case["neg"]], dtype=float).astype(dt)
     return Scores(pos, neg, nb_easy_pos=case["ep"], nb_easy_neg=case["en"], score_class=case["sc"], equal_class=case["ec"])
 
 
@@ -99,6 +103,11 @@ def run_thresholds(case):
 
     s = make_scores(case)
     targets = np.array([fl(t) for t in case["targets"]], dtype=float)
+    for w in case.get("warmup", []):
+        try:
+            getattr(s, "threshold_at_" + w)(np.array([0.0, 0.4, 1.0]))
+        except ValueError:
+            pass    # empty class for that metric
     thr = np.asarray(getattr(s, "threshold_at_" + case["metric"])(targets, method=case["method"]), dtype=float)
     t = float(tau(case))
     met = getattr(s, case["metric"])
